@@ -8,6 +8,7 @@ import CallbagModel.Inv.ForEach
 import CallbagModel.Inv.FromIter
 import CallbagModel.Inv.Fuse
 import CallbagModel.Inv.Merge
+import CallbagModel.Inv.MonSound
 import CallbagModel.Inv.Readable
 import CallbagModel.Inv.Relay
 import CallbagModel.Inv.Share
@@ -142,6 +143,15 @@ theorem C03_pipeline_readable {S1 L1 S2 L2 α β γ : Type} {M1 : Machine S1 L1 
 theorem C03_closed_pipeline_readable {S1 L1 S2 L2 α β γ : Type} {Msrc : Machine S1 L1 α β} {Mmid : Machine S2 L2 β γ} (hsrc : UpSide Msrc) (hmid : Pipeable Mmid) :
     ∀ s, SReach (compose (compose Msrc Mmid) (ForEach.machine γ)) s → ∀ k, DisposalRespected k s.tr :=
   fun s hs k => (readable_of_noViols hs (closed_pipeline_safe hsrc hmid s hs).1 k).2.2
+
+/-- the oracle that judges traces recorded from the real crate IS the monitor of these theorems: on every model execution the
+machine-free monitor `monRun` (Mon.lean), folded over the boundary trace alone, computes exactly the ghost carried by the configuration
+(`Inv/MonSound.lean`: `monRun_sound`), so `SafeFor 3` can be read off the trace -/
+theorem C03_oracle_is_the_monitor {St Loc α β : Type} (M : Machine St Loc α β) :
+    ∀ s, SReach M s →
+      (SafeFor 3 s ↔ (∀ v ∈ (monRun M.shape s.tr.reverse).g.viols, v.prop ≠ 3) ∧
+        (3 = 17 → (monRun M.shape s.tr.reverse).panicked = false)) :=
+  safeFor_iff_monRun M 3
 /-- `combine!`: the full phase-level safety statement is false (known findings KF2, KF3: messages to members that are not
 live, a C04 matter); what is proved is that those are the ONLY phase-level violations, hence C03 holds in full. -/
 theorem C03_combine {α : Type} (n : Nat) :
